@@ -6,6 +6,7 @@ import (
 	"os"
 	"path/filepath"
 	"strings"
+	"time"
 )
 
 func runC16Dir(em *vEmitter, r *vRng, idx int) {
@@ -124,6 +125,10 @@ func runC16Dir(em *vEmitter, r *vRng, idx int) {
 			case 10:
 				os.Mkdir(filepath.Join(h.base, ".tmp"), 0700)
 				write(".tmp/leftover", []byte("residue"))
+				if r.intn(2) == 0 { // ... that has been lying there for days
+					old := time.Now().Add(-time.Duration(2+r.intn(400)) * 24 * time.Hour)
+					os.Chtimes(filepath.Join(h.base, ".tmp/leftover"), old, old)
+				}
 				class = "dir/tmp-residue"
 			}
 		}
